@@ -1,4 +1,6 @@
 // drv_fields: C11 (setters), C12 (wire layout), C13 (payload builders), C14 (value semantics). ASan + UBSan flavour.
+#define VF_FAILPOINT_IMPL
+#include "failpoint.h"
 #include "bld_c13.h"
 #include "fld_engine.h"
 #include "val_c14.h"
